@@ -205,12 +205,13 @@ static int run_fn() {
             SDAI_Application_instance * o = sf.CreateSubSuperInstance( in, 1, e );
             r << "ok obj=" << ( ( o && o != ENTITY_NULL ) ? 1 : 0 );
             if( o && o != ENTITY_NULL ) delete o;
-        } else if( fn == "readdata1" ) {
+        } else if( fn == "readdata1" || fn == "readdata1w" ) {
             // pass 1 of the DATA section (the stream is positioned after "DATA;")
             std::istringstream in( bytes );
             InstMgr im; SF sf( reg, im );
             std::istringstream hdr( "HEADER;FILE_DESCRIPTION((''),'2;1');FILE_NAME('','',(''),(''),'','','');FILE_SCHEMA(('C05A'));ENDSEC;" );
             sf.ReadHeader( hdr );
+            if( fn == "readdata1w" ) sf.SetFileType( WORKING_SESSION );
             int cnt = sf.ReadData1( in );
             r << "ok cnt=" << cnt << " nc=" << sf.notCreated() << " " << obs( in );
             im.DeleteInstances();
